@@ -835,7 +835,6 @@ func (w *world) race(step int, op Op, m *mem) {
 	}
 	w.pendingLostAck(m)
 	sc := gate.New()
-	sc.Watchdog = 5 * time.Second
 	if op.Fail == "lostack" && op.FailAt != 0 && known("C02/lost-ack-stale-window") {
 		// inside a race the other tasks go on after the lost ack: same trigger class
 		op.Fail = "before"
@@ -870,6 +869,9 @@ func (w *world) race(step int, op Op, m *mem) {
 	}
 	ok := sc.Run(op.Sched, nil)
 	sc.Disable()
+	if !sc.Wait(60 * time.Second) {
+		ok = false
+	}
 	w.sched = nil
 	w.base = atomic.LoadInt64(&clockNow)
 	if !ok {
